@@ -207,6 +207,17 @@ def build(cfg, values=None):
                 for k in sorted(set(K1) | set(K2)):
                     obs.append(('bay-kA-vs-panel[%d,%d]' % k, K1.get(k, 0), K2.get(k, 0)))
             else:
+                if cfg.get('after_skin_redefinition'):
+                    # the bay was already asked for its damping matrix with OTHER w edge conditions of the skin
+                    names = ('w1rx', 'w2rx', 'w1ty')
+                    now = {nm: getattr(bay.panels[0], nm) for nm in names}
+                    for sk in bay.panels:
+                        for nm in names:
+                            setattr(sk, nm, ctx.V(nm + '_before'))
+                    bay.calc_cA(silent=True)
+                    for sk in bay.panels:
+                        for nm in names:
+                            setattr(sk, nm, now[nm])
                 bay.calc_cA(silent=True)
                 p.calc_cA(mu_, silent=True)
                 K1, K2 = bay.cA.todict(), p.cA.todict()
@@ -318,6 +329,7 @@ def configs(tier, seed):
     for model in ('plate',):
         out.append({'model': model, 'm': 4, 'n': 1, 'variant': 'bay-kA', 'flow': 'x', 'group': 'bay-kA-explicit-coefficients:%s' % model})
         out.append({'model': model, 'm': 3, 'n': 1, 'variant': 'bay-cA', 'flow': 'x', 'group': 'bay-cA:%s' % model})
+        out.append({'model': model, 'm': 3, 'n': 1, 'variant': 'bay-cA', 'flow': 'x', 'after_skin_redefinition': True, 'group': 'bay-cA-after-skin-redefinition:%s' % model})
         out.append({'model': model, 'm': 1, 'n': 4, 'variant': 'bay-kA', 'flow': 'y', 'group': 'bay-kA-explicit-coefficients-flow-y:%s' % model})
         out.append({'model': model, 'm': 4, 'n': 1, 'variant': 'bay-kA', 'flow': 'x', 'mach_route': True, 'group': 'bay-kA-mach-route:%s' % model})
         out.append({'model': model, 'm': 3, 'n': 1, 'variant': 'bay-cA', 'flow': 'x', 'mach_route': True, 'group': 'bay-cA-mach-route:%s' % model})
